@@ -7,7 +7,7 @@ EXHAUSTIVE = False
 EXPLANATION = ("Decides two structural necessary conditions of a well-formed tree on every skeleton instance: every tree operation "
                "(open, open_before, close, mark) is preceded on all paths by closing a pending error node (S5), and CstData.nodes is "
                "only mutated by push in open/advance, insert in open_before, index_mut of a Rule node in close/close_root and truncate "
-               "(S4). and a node closed behind trailing skipped tokens is covered by the non-skip length (S19: otherwise it falls out of its parent). N1: in the generated rule functions of the analysed grammars every mark from open/open_before is closed exactly once on every path to a normal return (typestate; sampled grammars). N2: every node-created callback is preceded by a close with the announced kind. The remaining extent arithmetic (end offsets, span nesting) and the created-callback clause are not decided.")
+               "(S4). and a node closed behind trailing skipped tokens is covered by the non-skip length (S19: otherwise it falls out of its parent). S14/S17: the skip flag handed to CstData.advance - which decides whether a token extends the non-skip length that node ends derive from - is true exactly on the arms selected by the skip set of is_skipped (a node ends with a skipped token otherwise). N1: in the generated rule functions of the analysed grammars every mark from open/open_before is closed exactly once on every path to a normal return (typestate; sampled grammars). N2: every node-created callback is preceded by a close with the announced kind. The remaining extent arithmetic (end offsets, span nesting) and the created-callback clause are not decided.")
 
 
 def run(ctx, rep):
@@ -15,6 +15,8 @@ def run(ctx, rep):
         lambda i, r, o: skel.s5_errnode(i, r),
         lambda i, r, o: skel.s4_nodes(i, r),
         lambda i, r, o: skel.s19_close_bump(i, r),
+        lambda i, r, o: skel.s14_skipset(i, r),
+        lambda i, r, o: skel.s17_ends(i, r),
     ])
     noderules.typestate_rule(ctx, rep)
     noderules.callback_rule(ctx, rep)
